@@ -120,11 +120,12 @@ func (server *Server) Start() error {
 
 // Stop stops the server.
 func (server *Server) Stop() error {
-	if err := server.ConnManager.Stop(); err != nil {
+	// Stops accepting first so that no connection is accepted while the current ones are closed.
+	if err := server.close(); err != nil {
 		return err
 	}
 
-	if err := server.close(); err != nil {
+	if err := server.ConnManager.Stop(); err != nil {
 		return err
 	}
 
